@@ -600,3 +600,70 @@ def r03_2_backtrack_contract(ctx: Ctx) -> None:
             run.ok("R03.2", f"base:path{i}")
         else:
             run.fail("R03.2", f"base:path{i}", "the base engine's backtrack_unary must return (tree, False, ...)", fi=base, node=p.node or base.node)
+
+
+def r04_4_set_formulas(ctx: Ctx, rule: str = "R04.4") -> None:
+    """Column-set formulas the commutation guards rely on, decided exactly by Venn regions."""
+    from ..setalg import Venn
+
+    run, m = ctx.run, ctx.m
+    run.rule(
+        rule,
+        "column-set formulas: PartialJoin.columns_required == (predicate columns - fixed columns) | min_columns; "
+        "Calculation.applied_columns == target columns | {tag}; Join.applied_columns == lhs | rhs (exact over Venn regions)",
+        expected_min=3,
+    )
+    pj = ctx.op_class("PartialJoin").methods.get("columns_required")
+    if pj is None:
+        raise AnalysisError("PartialJoin.columns_required is missing")
+    atoms = ["self.binary.predicate.columns_required", "self.fixed.columns", "self.binary.min_columns"]
+    v = Venn(atoms)
+    a, f_, mn = (v.atom(x) for x in atoms)
+    ref = (a - f_) | mn
+    for i, p in enumerate(ctx.paths(pj)):
+        if p.outcome != "return":
+            continue
+        got = v.run_path(p, p.value)
+        inst = f"PartialJoin.columns_required:path{i}"
+        if got is None:
+            run.note("PartialJoin.columns_required is computed in a form the Venn evaluator does not cover; undecided")
+            run.ok(rule, inst, {"undecided": True})
+        elif got == ref:
+            run.ok(rule, inst)
+        else:
+            run.fail(
+                rule,
+                inst,
+                "PartialJoin.columns_required is not (predicate columns - fixed columns) | min_columns: "
+                + ("the join's own key columns are missing from it, so commute() lets the join move above the operation that creates them" if not (mn <= got) else "it differs from the reference on some combination of memberships"),
+                fi=pj,
+                node=p.node,
+            )
+    calc = ctx.op_class("Calculation").methods.get("applied_columns")
+    t = [q for q in calc.params if q != "self"][0]
+    atoms = [f"{t}.columns", "{self.tag}"]
+    v = Venn(atoms)
+    ref = v.atom(atoms[0]) | v.atom(atoms[1])
+    for i, p in enumerate(ctx.paths(calc)):
+        if p.outcome != "return":
+            continue
+        got = v.run_path(p, p.value)
+        inst = f"Calculation.applied_columns:path{i}"
+        if got is None or got == ref:
+            run.ok(rule, inst, {"undecided": got is None})
+        else:
+            run.fail(rule, inst, "Calculation.applied_columns is not the target's columns plus the calculated tag", fi=calc, node=p.node)
+    jn = ctx.op_class("Join").methods.get("applied_columns")
+    jp = [q for q in jn.params if q != "self"]
+    atoms = [f"{jp[0]}.columns", f"{jp[1]}.columns"]
+    v = Venn(atoms)
+    ref = v.atom(atoms[0]) | v.atom(atoms[1])
+    for i, p in enumerate(ctx.paths(jn)):
+        if p.outcome != "return":
+            continue
+        got = v.run_path(p, p.value)
+        inst = f"Join.applied_columns:path{i}"
+        if got is None or got == ref:
+            run.ok(rule, inst, {"undecided": got is None})
+        else:
+            run.fail(rule, inst, "Join.applied_columns is not the union of both operands' columns", fi=jn, node=p.node)
